@@ -1790,3 +1790,1134 @@ Proof.
   - intros resp fid. destruct (unsol_wait_fragment cfg s resp from (Some m) bytes d fid) as [[s1 res] o1] eqn:E.
     apply uwf_bcast in E. cbn. tauto.
 Qed.
+
+(* ---------- 3. numbering of unsolicited responses ------------------------------------------------ *)
+
+(* the unsolicited fragments (function code 130) among the observations, in order *)
+Definition unsol_bytes (o : oobs) : option (list N) :=
+  match o with OTx _ b => if nth 1 b 0 =? 130 then Some b else None | _ => None end.
+
+Fixpoint unsol_txs (o : list oobs) : list (list N) :=
+  match o with
+  | [] => []
+  | x :: rest => match unsol_bytes x with Some b => b :: unsol_txs rest | None => unsol_txs rest end
+  end.
+
+(* each unsolicited fragment either repeats its predecessor byte for byte (a retry) or carries the
+   predecessor's sequence number + 1 mod 16 *)
+Fixpoint chain_ok (prev : option (list N)) (l : list (list N)) : Prop :=
+  match l with
+  | [] => True
+  | b :: rest =>
+      match prev with
+      | Some p => b = p \/ ctl_seq (nth 0 b 0) = seq16_next (ctl_seq (nth 0 p 0))
+      | None => True
+      end /\ chain_ok (Some b) rest
+  end.
+
+Fixpoint last_tx (prev : option (list N)) (l : list (list N)) : option (list N) :=
+  match l with [] => prev | b :: rest => last_tx (Some b) rest end.
+
+Lemma unsol_txs_app a b : unsol_txs (a ++ b) = unsol_txs a ++ unsol_txs b.
+Proof.
+  induction a as [|x a IH]; cbn [app unsol_txs]; [reflexivity|].
+  destruct (unsol_bytes x); rewrite IH; reflexivity.
+Qed.
+
+Lemma last_tx_app l1 : forall prev l2, last_tx prev (l1 ++ l2) = last_tx (last_tx prev l1) l2.
+Proof. induction l1 as [|b l1 IH]; intros prev l2; cbn [app last_tx]; [reflexivity|apply IH]. Qed.
+
+Lemma chain_ok_app l1 : forall prev l2,
+  chain_ok prev (l1 ++ l2) <-> chain_ok prev l1 /\ chain_ok (last_tx prev l1) l2.
+Proof.
+  induction l1 as [|b l1 IH]; intros prev l2; cbn [app chain_ok last_tx]; [tauto|].
+  rewrite IH. tauto.
+Qed.
+
+Lemma no_tx_no_unsol o : Forall no_tx o -> unsol_txs o = [].
+Proof.
+  induction 1 as [|x o Hx Ho IH]; [reflexivity|]. cbn [unsol_txs].
+  destruct x; try exact IH. destruct Hx.
+Qed.
+
+Lemma sobs_no_unsol szok o : Forall (sobs_ok szok) o -> unsol_txs o = [].
+Proof.
+  induction 1 as [|x o Hx Ho IH]; [reflexivity|]. cbn [unsol_txs].
+  destruct x; try exact IH. cbn [unsol_bytes].
+  destruct Hx as (r & buf & -> & (A & _)). rewrite response_bytes_nth1, A. exact IH.
+Qed.
+
+(* the state against the last unsolicited fragment transmitted so far *)
+Definition U (s : ostate) (prev : option (list N)) : Prop :=
+  s_unsol_seq s < 16 /\
+  (forall p, prev = Some p -> seq16_next (ctl_seq (nth 0 p 0)) = s_unsol_seq s) /\
+  (forall resp n k dl, s_control s = CUnsolWait resp n k dl -> prev = Some (response_bytes resp (s_unsol_buf s))).
+
+Definition Ustep (prev : option (list N)) (s' : ostate) (o : list oobs) : Prop :=
+  chain_ok prev (unsol_txs o) /\ U s' (last_tx prev (unsol_txs o)).
+
+Lemma Ustep_silent s prev s' o :
+  U s prev -> unsol_txs o = [] ->
+  s_unsol_seq s' = s_unsol_seq s -> s_unsol_buf s' = s_unsol_buf s ->
+  (s_control s' = s_control s \/ is_unsol_wait (s_control s') = false) ->
+  Ustep prev s' o.
+Proof.
+  intros (U1 & U2 & U3) Ho Hs Hb Hc. unfold Ustep. rewrite Ho. cbn [chain_ok last_tx]. split; [exact I|].
+  split; [rewrite Hs; exact U1|]. split; [intros p Hp; rewrite Hs; auto|].
+  intros resp n k dl Hc'. destruct Hc as [Hc|Hc].
+  - rewrite Hb. apply (U3 resp n k dl). congruence.
+  - rewrite Hc' in Hc. discriminate.
+Qed.
+
+Lemma Ustep_nil s prev : U s prev -> Ustep prev s [].
+Proof. intros H. eapply Ustep_silent; eauto. Qed.
+
+Lemma Ustep_app prev s1 o1 s2 o2 :
+  Ustep prev s1 o1 -> Ustep (last_tx prev (unsol_txs o1)) s2 o2 -> Ustep prev s2 (o1 ++ o2).
+Proof.
+  intros [A1 A2] [B1 B2]. unfold Ustep. rewrite unsol_txs_app, chain_ok_app, last_tx_app. tauto.
+Qed.
+
+(* observations without unsolicited fragments in front change nothing *)
+Lemma Ustep_pre prev s' pre o : unsol_txs pre = [] -> Ustep prev s' o -> Ustep prev s' (pre ++ o).
+Proof. intros Hp [A B]. unfold Ustep. rewrite unsol_txs_app, Hp. exact (conj A B). Qed.
+
+Lemma Ustep_post prev s' o post : unsol_txs post = [] -> Ustep prev s' o -> Ustep prev s' (o ++ post).
+Proof. intros Hp [A B]. unfold Ustep. rewrite unsol_txs_app, Hp, app_nil_r. exact (conj A B). Qed.
+
+Section Numbering.
+  Variable cfg : ocfg.
+
+  Notation IAa := (IA szany).
+
+  Lemma handle_from_idle_U s prev from bc bytes d fid s' o :
+    IAa s -> U s prev -> handle_from_idle cfg s from bc bytes d fid = (s', o) -> Ustep prev s' o.
+  Proof.
+    intros HI HU H.
+    pose proof (handle_from_idle_IA cfg szany szany_small (szany_tx cfg) _ _ _ _ _ _ _ _ HI H) as [_ Ho].
+    apply handle_from_idle_frame in H. destruct H as [A B].
+    destruct A as (_ & _ & A3 & _ & A5 & _).
+    eapply Ustep_silent; [exact HU|eapply sobs_no_unsol; exact Ho|exact A3|exact A5|].
+    destruct B as [B|[x B]]; [left; exact B|right; rewrite B; reflexivity].
+  Qed.
+
+  Lemma unsol_wait_fragment_U s prev resp from bc bytes d fid s' res o :
+    IAa s -> U s prev -> unsol_wait_fragment cfg s resp from bc bytes d fid = (s', res, o) -> Ustep prev s' o.
+  Proof.
+    intros HI HU H.
+    pose proof (unsol_wait_fragment_IA cfg szany szany_small (szany_tx cfg) _ _ _ _ _ _ _ _ _ _ HI H) as [_ Ho].
+    apply unsol_wait_fragment_frame in H. destruct H as [A _].
+    destruct A as (_ & A2 & _ & A4 & A5 & _).
+    eapply Ustep_silent; [exact HU|eapply sobs_no_unsol; exact Ho|exact A4|exact A5|left; exact A2].
+  Qed.
+
+  Lemma handle_deferred_U s prev ns s' o :
+    IAa s -> U s prev -> handle_deferred cfg s ns = (s', o) -> Ustep prev s' o.
+  Proof.
+    intros HI HU H.
+    pose proof (handle_deferred_IA cfg szany szany_small _ _ _ _ HI H) as [_ Ho].
+    destruct (s_deferred s) as [df|] eqn:Ed.
+    - eapply handle_deferred_some in H; [|exact Ed].
+      destruct H as (s3 & r & r' & pre & post & se' & _ & _ & _ & _ & _ & _ & _ & _ & _ & _ & _ & G4 & G5 & _ & _ & _ & _ & G6).
+      eapply Ustep_silent; [exact HU|eapply sobs_no_unsol; exact Ho|exact G4|exact G5|].
+      destruct G6 as [G6|[x G6]]; [left; exact G6|right; rewrite G6; reflexivity].
+    - rewrite handle_deferred_none in H by exact Ed. inversion H; subst. apply Ustep_nil. exact HU.
+  Qed.
+
+  Lemma end_unsol_U s prev is_null res s' ns o :
+    U s prev -> end_unsol cfg s is_null res = (s', ns, o) -> Ustep prev s' o.
+  Proof.
+    intros HU H. apply end_unsol_frame in H.
+    destruct H as (F1 & _ & _ & _ & _ & F6 & F7 & _ & _ & _ & F11).
+    eapply Ustep_silent; [exact HU|apply no_tx_no_unsol; exact F11|exact F6|exact F7|].
+    right. rewrite F1. reflexivity.
+  Qed.
+
+  (* a NEW unsolicited response takes the sequence number s_unsol_seq and advances it *)
+  Lemma start_unsol_U s prev seq n is_null s' o :
+    seq < 16 -> s_unsol_seq s = seq16_next seq ->
+    (forall p, prev = Some p -> seq16_next (ctl_seq (nth 0 p 0)) = seq) ->
+    start_unsol cfg s (unsol_header seq n) is_null = (s', o) -> Ustep prev s' o.
+  Proof.
+    intros Hlt Hs Hp H. apply start_unsol_spec in H.
+    destruct H as (s1 & r1 & pre & E1 & E2 & E3 & E4 & E5 & E6 & E7).
+    destruct E1 as (_ & _ & _ & _ & S5 & _ & S7 & _).
+    assert (Hseq : ctl_seq (r_ctl r1) = seq).
+    { rewrite E4. cbn [unsol_header r_ctl]. rewrite ctl_byte_seq. apply N.mod_small. exact Hlt. }
+    subst o. apply Ustep_pre; [apply no_tx_no_unsol; exact E7|].
+    unfold Ustep. cbn [unsol_txs unsol_bytes]. rewrite response_bytes_nth1, E2. cbn [unsol_header r_fn].
+    change (fn_unsol_response =? 130) with true. cbv iota. cbn [chain_ok last_tx]. split.
+    - split; [|exact I]. destruct prev as [p|]; [|exact I]. right.
+      rewrite response_bytes_nth0, Hseq. symmetry. apply Hp. reflexivity.
+    - subst s'. split; [cbn; rewrite S5, Hs; apply seq16_next_lt|]. split.
+      + intros p Hp'. inversion Hp'; subst p. rewrite response_bytes_nth0, Hseq. cbn. rewrite S5, Hs. reflexivity.
+      + intros resp n0 k dl Hc. cbn in Hc. inversion Hc; subst. reflexivity.
+  Qed.
+
+  Lemma check_unsolicited_U s prev s' ns o :
+    U s prev -> check_unsolicited cfg s = (s', ns, o) -> is_unsol_wait (s_control s) = false -> Ustep prev s' o.
+  Proof.
+    intros HU H Hc. pose proof HU as (U1 & U2 & U3). revert H. unfold check_unsolicited.
+    destruct (negb (o_unsol cfg)).
+    { intros H; inversion H; subst. apply Ustep_nil. exact HU. }
+    destruct (s_unsol s) as [|deadline].
+    { match goal with |- context [start_unsol cfg ?a ?b ?c] => destruct (start_unsol cfg a b c) as [s2 o2] eqn:E end.
+      apply start_unsol_U with (prev := prev) in E; [|exact U1|reflexivity|exact U2].
+      intros H; inversion H; subst. exact E. }
+    destruct (negb match deadline with Some t => (t <=? s_now s)%Z | None => true end).
+    { intros H; inversion H; subst. apply Ustep_nil. exact HU. }
+    destruct (negb (any_enabled s)).
+    { intros H; inversion H; subst. apply Ustep_nil. exact HU. }
+    destruct (ask_unsol s) as [s1 [count body]] eqn:E0. apply ask_unsol_spec in E0.
+    destruct E0 as (_ & T2 & _ & _ & T5 & _ & T7 & _).
+    destruct (s_enabled s) as [[c1 c2] c3].
+    destruct (count =? 0).
+    { intros H; inversion H; subst. eapply Ustep_silent; [exact HU|reflexivity|exact T5|exact T7|left; exact T2]. }
+    match goal with |- context [start_unsol cfg ?a ?b ?c] => destruct (start_unsol cfg a b c) as [s3 o3] eqn:E end.
+    apply start_unsol_U with (prev := prev) in E; [|rewrite T5; exact U1|reflexivity|intros p Hp; rewrite T5; auto].
+    intros H; inversion H; subst. apply (Ustep_pre prev s' [ODb (DbWriteUnsol c1 c2 c3)]); [reflexivity|exact E].
+  Qed.
+
+  Lemma idle_run_U fuel : forall st s prev s' o,
+    IAa s -> U s prev -> is_unsol_wait (s_control s) = false ->
+    idle_run fuel cfg st s = (s', o) -> Ustep prev s' o.
+  Proof.
+    induction fuel as [|f IH]; intros st s prev s' o HI HU Hc H; cbn [idle_run] in H.
+    { inversion H; subst. eapply Ustep_silent; [exact HU|reflexivity|reflexivity|reflexivity|left; reflexivity]. }
+    destruct st as [| |ns|ns].
+    - (* St1 *)
+      destruct (match s_pending s with
+                | Some (from, bc, bytes, d, fid) => handle_from_idle cfg (upd_pending s None) from bc bytes d fid
+                | None => (s, [])
+                end) as [s1 o1] eqn:E1.
+      assert (H1 : IAa s1 /\ Ustep prev s1 o1).
+      { destruct (s_pending s) as [[[[[from bc] bytes] d] fid]|].
+        - split.
+          + exact (proj1 (handle_from_idle_IA cfg szany szany_small (szany_tx cfg) (upd_pending s None) _ _ _ _ _ _ _ HI E1)).
+          + eapply handle_from_idle_U; [| |exact E1]; [exact HI|exact HU].
+        - inversion E1; subst. split; [exact HI|apply Ustep_nil; exact HU]. }
+      destruct H1 as [HI1 HU1].
+      destruct (s_control s1) eqn:Ec1; [|inversion H; subst; exact HU1..].
+      destruct (idle_run f cfg St2 s1) as [s2 o2] eqn:E2.
+      apply IH with (prev := last_tx prev (unsol_txs o1)) in E2; [|exact HI1|exact (proj2 HU1)|rewrite Ec1; reflexivity].
+      inversion H; subst. eapply Ustep_app; eassumption.
+    - (* St2 *)
+      destruct (check_unsolicited cfg s) as [[s2 ns] o2] eqn:E2.
+      pose proof (check_unsolicited_IA cfg szany _ _ _ _ HI E2) as [HI2 _].
+      apply check_unsolicited_U with (prev := prev) in E2; [|exact HU|exact Hc].
+      destruct (s_control s2) as [|se dl r|resp is_null retries dl] eqn:Ec2.
+      + destruct (idle_run f cfg (St3 false) s2) as [s3 o3] eqn:E3.
+        apply IH with (prev := last_tx prev (unsol_txs o2)) in E3; [|exact HI2|exact (proj2 E2)|rewrite Ec2; reflexivity].
+        inversion H; subst. eapply Ustep_app; eassumption.
+      + inversion H; subst. exact E2.
+      + destruct (s_pending s2) as [[[[[from bc] bytes] d] fid]|]; [|inversion H; subst; exact E2].
+        destruct (unsol_wait_fragment cfg (upd_pending s2 None) resp from bc bytes d fid) as [[s3 res] o3] eqn:E3.
+        pose proof (unsol_wait_fragment_IA cfg szany szany_small (szany_tx cfg) (upd_pending s2 None) _ _ _ _ _ _ _ _ _ HI2 E3) as [HI3 _].
+        apply unsol_wait_fragment_U with (prev := last_tx prev (unsol_txs o2)) in E3; [|exact HI2|exact (proj2 E2)].
+        pose proof (Ustep_app _ _ _ _ _ E2 E3) as E23.
+        destruct res as [r|]; [|inversion H; subst; exact E23].
+        destruct (end_unsol cfg s3 is_null r) as [[s4 ns4] o4] eqn:E4.
+        pose proof (end_unsol_IA cfg szany _ _ _ _ _ _ HI3 E4) as [HI4 _].
+        pose proof (end_unsol_frame _ _ _ _ _ _ _ E4) as (F1 & _).
+        apply end_unsol_U with (prev := last_tx prev (unsol_txs (o2 ++ o3))) in E4; [|exact (proj2 E23)].
+        pose proof (Ustep_app _ _ _ _ _ E23 E4) as E234.
+        destruct (idle_run f cfg (St3 ns4) s4) as [s5 o5] eqn:E5.
+        apply IH with (prev := last_tx prev (unsol_txs ((o2 ++ o3) ++ o4))) in E5;
+          [|exact HI4|exact (proj2 E234)|rewrite F1; reflexivity].
+        inversion H; subst.
+        replace (o2 ++ o3 ++ o4 ++ o5) with (((o2 ++ o3) ++ o4) ++ o5) by (rewrite <- !app_assoc; reflexivity).
+        eapply Ustep_app; eassumption.
+    - (* St3 *)
+      destruct (handle_deferred cfg s ns) as [s3 o3] eqn:E3.
+      pose proof (handle_deferred_IA cfg szany szany_small _ _ _ _ HI E3) as [HI3 _].
+      apply handle_deferred_U with (prev := prev) in E3; [|exact HI|exact HU].
+      destruct (s_control s3) eqn:Ec3; [|inversion H; subst; exact E3..].
+      destruct (idle_run f cfg (St4 ns) s3) as [s4 o4] eqn:E4.
+      apply IH with (prev := last_tx prev (unsol_txs o3)) in E4; [|exact HI3|exact (proj2 E3)|rewrite Ec3; reflexivity].
+      inversion H; subst. eapply Ustep_app; eassumption.
+    - (* St4 *)
+      destruct (s_pending s); [eapply IH; eassumption|].
+      destruct ns; [eapply IH; eassumption|].
+      destruct (s_notify s); [eapply IH; [| | |exact H]; [exact HI|exact HU|exact Hc]|].
+      inversion H; subst. apply Ustep_nil. exact HU.
+  Qed.
+End Numbering.
+
+Section Numbering2.
+  Variable cfg : ocfg.
+  Notation IAa := (IA szany).
+
+  Lemma U_upd_control s prev c : U s prev -> is_unsol_wait c = false -> U (upd_control s c) prev.
+  Proof.
+    intros (U1 & U2 & U3) Hc. split; [exact U1|]. split; [exact U2|].
+    intros resp n k dl H. cbn in H. rewrite H in Hc. discriminate.
+  Qed.
+
+  Lemma resume_at_U st s prev s' o :
+    IAa s -> U s prev -> is_unsol_wait (s_control s) = false -> resume_at cfg st s = (s', o) -> Ustep prev s' o.
+  Proof. unfold resume_at. apply idle_run_U. Qed.
+
+  Lemma idle_loop_U n s prev s' o :
+    IAa s -> U s prev -> is_unsol_wait (s_control s) = false -> idle_loop n cfg s = (s', o) -> Ustep prev s' o.
+  Proof. unfold idle_loop. apply idle_run_U. Qed.
+
+  Lemma fire_deadline_U s prev s' o :
+    IAa s -> U s prev -> fire_deadline cfg s = (s', o) -> Ustep prev s' o.
+  Proof.
+    intros HI HU. unfold fire_deadline. destruct (s_control s) as [|se dl r|resp is_null retries dl] eqn:Ec.
+    - apply resume_at_U; [exact HI|exact HU|rewrite Ec; reflexivity].
+    - destruct (resume_at cfg (stage_of r) (upd_control s CIdle)) as [s1 o1] eqn:E.
+      apply resume_at_U with (prev := prev) in E;
+        [|apply IA_upd_control_idle; exact HI|apply U_upd_control; [exact HU|reflexivity]|reflexivity].
+      intros H; inversion H; subst. apply (Ustep_pre prev s' [OInfo (ISolTimeout (se_ecsn se)); ODb DbReset]); [reflexivity|exact E].
+    - assert (Hresp : r_fn resp = 130). { destruct HI as [[_ I2] _]. rewrite Ec in I2. exact (proj1 I2). }
+      pose proof HU as (U1 & U2 & U3).
+      match goal with |- (if ?c then _ else _) = _ -> _ => destruct c end.
+      + intros H; inversion H; subst. unfold repeat_unsolicited.
+        apply (Ustep_pre prev _ [OInfo (IUnsolTimeout (ctl_seq (r_ctl resp)) true)]); [reflexivity|].
+        unfold Ustep. cbn [unsol_txs unsol_bytes]. rewrite response_bytes_nth1, Hresp. cbn [N.eqb Pos.eqb chain_ok last_tx].
+        rewrite (U3 _ _ _ _ Ec). split; [split; [left; reflexivity|exact I]|].
+        split; [exact U1|]. split.
+        * intros p Hp. apply U2. rewrite (U3 _ _ _ _ Ec). exact Hp.
+        * intros resp0 n k dl0 Hc. cbn in Hc. inversion Hc; subst. reflexivity.
+      + destruct (end_unsol cfg s is_null UrTimeout) as [[s1 ns] o1] eqn:E1.
+        pose proof (end_unsol_IA cfg szany _ _ _ _ _ _ HI E1) as [HI1 _].
+        pose proof (end_unsol_frame _ _ _ _ _ _ _ E1) as (F1 & _).
+        apply end_unsol_U with (prev := prev) in E1; [|exact HU].
+        destruct (resume_at cfg (St3 ns) s1) as [s2 o2] eqn:E2.
+        apply resume_at_U with (prev := last_tx prev (unsol_txs o1)) in E2; [|exact HI1|exact (proj2 E1)|rewrite F1; reflexivity].
+        intros H; inversion H; subst.
+        apply (Ustep_pre prev s' [OInfo (IUnsolTimeout (ctl_seq (r_ctl resp)) false)]); [reflexivity|].
+        eapply Ustep_app; eassumption.
+  Qed.
+
+  Lemma advance_U fuel : forall s prev target s' o,
+    IAa s -> U s prev -> advance fuel cfg s target = (s', o) -> Ustep prev s' o.
+  Proof.
+    induction fuel as [|f IH]; intros s prev target s' o HI HU H; cbn [advance] in H.
+    { inversion H; subst. eapply Ustep_silent; [exact HU|reflexivity|reflexivity|reflexivity|left; reflexivity]. }
+    destruct (next_deadline cfg s) as [d|];
+      [|inversion H; subst; eapply Ustep_silent; [exact HU|reflexivity|reflexivity|reflexivity|left; reflexivity]].
+    destruct (d <=? target)%Z;
+      [|inversion H; subst; eapply Ustep_silent; [exact HU|reflexivity|reflexivity|reflexivity|left; reflexivity]].
+    destruct (fire_deadline cfg (upd_now s (Z.max d (s_now s)))) as [s1 o1] eqn:E1.
+    pose proof (fire_deadline_IA cfg szany szany_small (szany_tx cfg) (upd_now s (Z.max d (s_now s))) _ _ HI E1) as [HI1 _].
+    apply fire_deadline_U with (prev := prev) in E1; [|exact HI|exact HU].
+    destruct (advance f cfg s1 target) as [s2 o2] eqn:E2.
+    apply IH with (prev := last_tx prev (unsol_txs o1)) in E2; [|exact HI1|exact (proj2 E1)].
+    inversion H; subst. apply (Ustep_pre prev s' [OAt (Z.max d (s_now s))]); [reflexivity|].
+    eapply Ustep_app; eassumption.
+  Qed.
+
+  Lemma on_rx_U s prev from bc bytes d s' o :
+    IAa s -> U s prev -> on_rx cfg s from bc bytes d = (s', o) -> Ustep prev s' o.
+  Proof.
+    intros HI HU. unfold on_rx.
+    set (fid := (s_frame_id s + 1) mod 4294967296).
+    assert (HI0 : IAa (upd_frame_id s fid)) by exact HI.
+    assert (HU0 : U (upd_frame_id s fid) prev) by exact HU.
+    destruct (s_control (upd_frame_id s fid)) as [|se dl r|resp is_null retries dl] eqn:Ec.
+    - apply idle_loop_U; [exact HI0|exact HU0|]. cbn. cbn in Ec. rewrite Ec. reflexivity.
+    - destruct (sol_wait_fragment cfg (upd_frame_id s fid) se dl from bc bytes d) as [oc o1] eqn:E1.
+      pose proof (sol_wait_fragment_ok cfg szany _ _ _ _ _ _ _ _ _ HI0 E1) as Ho1. apply sobs_no_unsol in Ho1.
+      destruct oc as [dl'|respond_to|].
+      + intros H; inversion H; subst.
+        eapply Ustep_silent; [exact HU0|exact Ho1|reflexivity|reflexivity|right; reflexivity].
+      + destruct (se_fin se).
+        * match goal with |- context [resume_at cfg ?a ?b] => destruct (resume_at cfg a b) as [s2 o2] eqn:E2 end.
+          apply resume_at_U with (prev := prev) in E2;
+            [|apply IA_upd_control_idle; exact HI0|apply U_upd_control; [exact HU0|reflexivity]|reflexivity].
+          intros H; inversion H; subst. apply Ustep_pre; [exact Ho1|].
+          apply (Ustep_pre prev s' [ODb DbClearWritten]); [reflexivity|exact E2].
+        * match goal with |- context [format_read_response ?a ?b ?c ?e] =>
+            destruct (format_read_response a b c e) as [[[s2 rsp] next] o2] eqn:E2 end.
+          apply format_read_response_spec in E2.
+          destruct E2 as (B1 & B2 & B3 & _ & (fin & con & B4 & _) & (c & e & b & B5 & B6)).
+          assert (HI2 : IAa s2) by (eapply IA_sc; [exact B1|exact HI0]).
+          assert (Hr : sol_resp szany rsp).
+          { split; [exact B3|]. split; [rewrite B4; apply ctl_byte_uns|exact I]. }
+          destruct (write_solicited s2 respond_to rsp) as [[s3 rsp'] o3] eqn:E3.
+          pose proof (write_solicited_spec _ _ _ _ _ _ E3) as (C1 & _).
+          apply (write_solicited_IA szany) in E3; [|exact HI2|exact Hr]. destruct E3 as (F1 & F2 & F3).
+          apply sobs_no_unsol in F3.
+          pose proof (sc_trans _ _ _ B1 C1) as S. destruct S as (_ & _ & _ & _ & S5 & _ & S7 & _). cbn in S5, S7.
+          match goal with |- context [upd_last s3 ?x] => set (nl := x) end.
+          assert (HI4 : IAa (upd_last s3 nl)).
+          { destruct F1 as [[I1 I2] I3]. split; [split|]; [|exact I2|exact I3].
+            cbn. subst nl. intros l r0 Hl Hr0. destruct (s_last s3) as [l0|]; [|discriminate].
+            inversion Hl; subst. cbn in Hr0. inversion Hr0; subst. exact F2. }
+          assert (Hno : unsol_txs (o1 ++ [ODb DbClearWritten] ++ o2 ++ o3) = []).
+          { rewrite !unsol_txs_app, Ho1, F3, (no_tx_no_unsol _ B2). reflexivity. }
+          destruct next as [n|].
+          -- intros H; inversion H; subst.
+             eapply Ustep_silent; [exact HU0|exact Hno|exact S5|exact S7|right; reflexivity].
+          -- match goal with |- context [resume_at cfg ?a ?b] => destruct (resume_at cfg a b) as [s5 o5] eqn:E5 end.
+             apply resume_at_U with (prev := prev) in E5; [|apply IA_upd_control_idle; exact HI4| |reflexivity].
+             2:{ destruct HU0 as (U1 & U2 & U3). split; [cbn; rewrite S5; exact U1|].
+                 split; [intros p Hp; cbn; rewrite S5; auto|]. intros resp n k dl0 Hc. discriminate. }
+             intros H; inversion H; subst.
+             apply Ustep_pre; [exact Ho1|]. apply (Ustep_pre prev s' [ODb DbClearWritten]); [reflexivity|].
+             apply Ustep_pre; [apply no_tx_no_unsol; exact B2|]. apply Ustep_pre; [exact F3|exact E5].
+      + match goal with |- context [resume_at cfg ?a ?b] => destruct (resume_at cfg a b) as [s2 o2] eqn:E2 end.
+        apply resume_at_U with (prev := prev) in E2;
+          [|apply IA_upd_pending, IA_upd_control_idle; exact HI0|apply U_upd_control; [exact HU0|reflexivity]|reflexivity].
+        intros H; inversion H; subst. apply Ustep_pre; [exact Ho1|].
+        apply (Ustep_pre prev s' [ODb DbReset]); [reflexivity|exact E2].
+    - destruct (unsol_wait_fragment cfg (upd_frame_id s fid) resp from bc bytes d fid) as [[s1 res] o1] eqn:E1.
+      pose proof (unsol_wait_fragment_IA cfg szany szany_small (szany_tx cfg) _ _ _ _ _ _ _ _ _ _ HI0 E1) as [HI1 _].
+      apply unsol_wait_fragment_U with (prev := prev) in E1; [|exact HI0|exact HU0].
+      destruct res as [r|]; [|intros H; inversion H; subst; exact E1].
+      destruct (end_unsol cfg s1 is_null r) as [[s2 ns] o2] eqn:E2.
+      pose proof (end_unsol_IA cfg szany _ _ _ _ _ _ HI1 E2) as [HI2 _].
+      pose proof (end_unsol_frame _ _ _ _ _ _ _ E2) as (F1 & _).
+      apply end_unsol_U with (prev := last_tx prev (unsol_txs o1)) in E2; [|exact (proj2 E1)].
+      pose proof (Ustep_app _ _ _ _ _ E1 E2) as E12.
+      destruct (resume_at cfg (St3 ns) s2) as [s3 o3] eqn:E3.
+      apply resume_at_U with (prev := last_tx prev (unsol_txs (o1 ++ o2))) in E3; [|exact HI2|exact (proj2 E12)|rewrite F1; reflexivity].
+      intros H; inversion H; subst. rewrite app_assoc. eapply Ustep_app; eassumption.
+  Qed.
+
+  Lemma ostep_U s prev ev answers s' o :
+    Inv szany s -> U s prev -> ostep cfg s ev answers = (s', o) -> Ustep prev s' o.
+  Proof.
+    intros HInv HU.
+    assert (HI0 : IAa (upd_answers s answers)) by (split; [exact HInv|apply Forall_aok_any]).
+    assert (HU0 : U (upd_answers s answers) prev) by exact HU.
+    unfold ostep. destruct ev as [from bc bytes d|ms| |sel op|v|].
+    - destruct (on_rx cfg (upd_answers s answers) from bc bytes d) as [s1 o1] eqn:E1.
+      pose proof (on_rx_IA cfg szany szany_small (szany_tx cfg) _ _ _ _ _ _ _ HI0 E1) as [HI1 _].
+      apply on_rx_U with (prev := prev) in E1; [|exact HI0|exact HU0].
+      destruct (advance 64 cfg s1 (s_now s1 + settle_ms)) as [s2 o2] eqn:E2.
+      apply advance_U with (prev := last_tx prev (unsol_txs o1)) in E2; [|exact HI1|exact (proj2 E1)].
+      intros H; inversion H; subst. eapply Ustep_app; eassumption.
+    - destruct (advance 4096 cfg (upd_answers s answers) (s_now (upd_answers s answers) + ms)) as [s1 o1] eqn:E1.
+      apply advance_U with (prev := prev) in E1; [|exact HI0|exact HU0]. intros H; inversion H; subst. exact E1.
+    - destruct (match s_control (upd_answers s answers) with
+                | CIdle => idle_loop 8 cfg (upd_answers s answers)
+                | _ => (upd_notify (upd_answers s answers) true, [])
+                end) as [s1 o1] eqn:E1.
+      assert (H1 : IAa s1 /\ Ustep prev s1 o1).
+      { destruct (s_control (upd_answers s answers)) eqn:Ec.
+        - split; [exact (proj1 (idle_loop_IA cfg szany szany_small (szany_tx cfg) _ _ _ _ HI0 E1))|].
+          eapply idle_loop_U; [exact HI0|exact HU0|rewrite Ec; reflexivity|exact E1].
+        - inversion E1; subst. split; [exact HI0|apply Ustep_nil; exact HU0].
+        - inversion E1; subst. split; [exact HI0|apply Ustep_nil; exact HU0]. }
+      destruct H1 as [HI1 HU1].
+      destruct (advance 64 cfg s1 (s_now s1 + settle_ms)) as [s2 o2] eqn:E2.
+      apply advance_U with (prev := last_tx prev (unsol_txs o1)) in E2; [|exact HI1|exact (proj2 HU1)].
+      intros H; inversion H; subst. eapply Ustep_app; eassumption.
+    - intros H; inversion H; subst. apply Ustep_nil. exact HU0.
+    - intros H; inversion H; subst. apply Ustep_nil. exact HU0.
+    - match goal with |- context [idle_loop 8 cfg ?a] => set (sr := a) end.
+      assert (HIr : IAa sr).
+      { destruct HI0 as [[I1 I2] I3]. split; [split|]; [|exact I|exact I3]. cbn. discriminate. }
+      assert (HUr : U sr prev).
+      { destruct HU0 as (U1 & U2 & U3). split; [exact U1|]. split; [exact U2|]. intros resp n k dl Hc. discriminate. }
+      destruct (idle_loop 8 cfg sr) as [s2 o2] eqn:E2.
+      pose proof (idle_loop_IA cfg szany szany_small (szany_tx cfg) _ _ _ _ HIr E2) as [HI2 _].
+      apply idle_loop_U with (prev := prev) in E2; [|exact HIr|exact HUr|reflexivity].
+      destruct (advance 64 cfg s2 (s_now s2 + settle_ms)) as [s3 o3] eqn:E3.
+      apply advance_U with (prev := last_tx prev (unsol_txs o2)) in E3; [|exact HI2|exact (proj2 E2)].
+      intros H; inversion H; subst.
+      apply (Ustep_pre prev s' [ODb DbReset; OSessionEnd]); [reflexivity|]. eapply Ustep_app; eassumption.
+  Qed.
+
+  Lemma ostart_U sel op iin a0 s' o : ostart cfg sel op iin a0 = (s', o) -> Ustep None s' o.
+  Proof.
+    unfold ostart. apply idle_loop_U.
+    - split; [split|apply Forall_aok_any]; [|exact I]. cbn. discriminate.
+    - split; [cbn; lia|]. split; [discriminate|]. intros resp n k dl Hc. discriminate.
+    - reflexivity.
+  Qed.
+
+  Lemma orun_U evs : forall s prev,
+    Inv szany s -> U s prev -> chain_ok prev (unsol_txs (concat (orun cfg s evs))).
+  Proof.
+    induction evs as [|[ev ans] evs IH]; intros s prev HInv HU; cbn [orun concat unsol_txs chain_ok]; [exact I|].
+    destruct (ostep cfg s ev ans) as [s1 o1] eqn:E. cbn [concat].
+    pose proof (ostep_IA cfg szany szany_small (szany_tx cfg) _ _ _ _ _ HInv (Forall_aok_any ans) E) as [[HInv1 _] _].
+    apply ostep_U with (prev := prev) in E; [|exact HInv|exact HU].
+    rewrite unsol_txs_app, chain_ok_app. split; [exact (proj1 E)|]. apply IH; [exact HInv1|exact (proj2 E)].
+  Qed.
+End Numbering2.
+
+(* all observations of a run: start-up, then one list per event *)
+Definition run_obs (cfg : ocfg) (sel op iin : N) (a0 : list answer) (evs : list (oevent * list answer)) : list oobs :=
+  snd (ostart cfg sel op iin a0) ++ concat (orun cfg (fst (ostart cfg sel op iin a0)) evs).
+
+(* Trace statement: along any run, each unsolicited fragment either repeats its predecessor byte for
+   byte (a retry) or carries the predecessor's sequence number + 1 mod 16. *)
+Theorem unsolicited_numbering : forall cfg sel op iin a0 evs,
+  chain_ok None (unsol_txs (run_obs cfg sel op iin a0 evs)).
+Proof.
+  intros cfg sel op iin a0 evs. unfold run_obs.
+  destruct (ostart cfg sel op iin a0) as [s0 o0] eqn:E. cbn [fst snd].
+  pose proof (ostart_IA cfg szany szany_small (szany_tx cfg) _ _ _ _ _ _ (Forall_aok_any a0) E) as [[HInv _] _].
+  apply ostart_U in E. rewrite unsol_txs_app, chain_ok_app. split; [exact (proj1 E)|].
+  apply orun_U; [exact HInv|exact (proj2 E)].
+Qed.
+
+(* the state after a run *)
+Fixpoint ofinal (cfg : ocfg) (s : ostate) (evs : list (oevent * list answer)) : ostate :=
+  match evs with
+  | [] => s
+  | (ev, ans) :: rest => ofinal cfg (fst (ostep cfg s ev ans)) rest
+  end.
+
+Lemma orun_U_final cfg evs : forall s prev,
+  Inv szany s -> U s prev -> U (ofinal cfg s evs) (last_tx prev (unsol_txs (concat (orun cfg s evs)))).
+Proof.
+  induction evs as [|[ev ans] evs IH]; intros s prev HInv HU; cbn [orun concat unsol_txs last_tx ofinal]; [exact HU|].
+  destruct (ostep cfg s ev ans) as [s1 o1] eqn:E. cbn [concat fst].
+  pose proof (ostep_IA cfg szany szany_small (szany_tx cfg) _ _ _ _ _ HInv (Forall_aok_any ans) E) as [[HInv1 _] _].
+  apply ostep_U with (prev := prev) in E; [|exact HInv|exact HU].
+  rewrite unsol_txs_app, last_tx_app. apply IH; [exact HInv1|exact (proj2 E)].
+Qed.
+
+(* The session state against the trace: s_unsol_seq is the successor of the sequence number of the
+   last unsolicited fragment sent, and while a confirmation is awaited the fragment kept for retries
+   IS that last fragment. *)
+Theorem unsolicited_state_tracks_trace : forall cfg sel op iin a0 evs,
+  U (ofinal cfg (fst (ostart cfg sel op iin a0)) evs) (last_tx None (unsol_txs (run_obs cfg sel op iin a0 evs))).
+Proof.
+  intros cfg sel op iin a0 evs. unfold run_obs.
+  destruct (ostart cfg sel op iin a0) as [s0 o0] eqn:E. cbn [fst snd].
+  pose proof (ostart_IA cfg szany szany_small (szany_tx cfg) _ _ _ _ _ _ (Forall_aok_any a0) E) as [[HInv _] _].
+  apply ostart_U in E. rewrite unsol_txs_app, last_tx_app. apply orun_U_final; [exact HInv|exact (proj2 E)].
+Qed.
+
+Lemma start_unsol_new cfg s seq n is_null s' o :
+  seq < 16 -> start_unsol cfg s (unsol_header seq n) is_null = (s', o) ->
+  exists resp k dl b,
+    s_control s' = CUnsolWait resp is_null k dl /\ b = response_bytes resp (s_unsol_buf s') /\
+    unsol_txs o = [b] /\ nth 1 b 0 = 130 /\ 240 <= nth 0 b 0 /\ ctl_seq (nth 0 b 0) = seq /\
+    s_unsol_seq s' = s_unsol_seq s /\ In (OTx (o_master cfg) b) o.
+Proof.
+  intros Hlt H. apply start_unsol_spec in H.
+  destruct H as (s1 & r1 & pre & E1 & E2 & E3 & E4 & E5 & E6 & E7).
+  destruct E1 as (_ & _ & _ & _ & S5 & _ & S7 & _).
+  exists r1, (if is_null then Some 0%nat else o_retries cfg), (confirm_deadline cfg s1), (response_bytes r1 (s_unsol_buf s1)).
+  subst s' o. split; [reflexivity|]. split; [reflexivity|].
+  rewrite unsol_txs_app, (no_tx_no_unsol _ E7). cbn [app unsol_txs unsol_bytes].
+  rewrite response_bytes_nth0, response_bytes_nth1, E2, E4. cbn [unsol_header r_fn r_ctl].
+  change (fn_unsol_response =? 130) with true. cbv iota.
+  split; [reflexivity|]. split; [reflexivity|]. split; [apply ctl_byte_unsol_ge|].
+  split; [rewrite ctl_byte_seq; apply N.mod_small; exact Hlt|]. split; [exact S5|].
+  apply in_or_app. right. left. reflexivity.
+Qed.
+
+(* each NEW unsolicited response (null or data) takes s_unsol_seq and advances it mod 16 *)
+Theorem new_unsolicited_sequence : forall cfg s s' ns o,
+  s_unsol_seq s < 16 -> check_unsolicited cfg s = (s', ns, o) ->
+  (unsol_txs o = [] /\ s_unsol_seq s' = s_unsol_seq s /\ s_control s' = s_control s) \/
+  (exists resp n k dl b,
+     s_control s' = CUnsolWait resp n k dl /\ b = response_bytes resp (s_unsol_buf s') /\
+     unsol_txs o = [b] /\ nth 1 b 0 = 130 /\ 240 <= nth 0 b 0 /\ ctl_seq (nth 0 b 0) = s_unsol_seq s /\
+     s_unsol_seq s' = seq16_next (s_unsol_seq s) /\ In (OTx (o_master cfg) b) o).
+Proof.
+  intros cfg s s' ns o Hlt. unfold check_unsolicited.
+  destruct (negb (o_unsol cfg)); [intros H; inversion H; subst; left; auto|].
+  destruct (s_unsol s) as [|deadline].
+  { match goal with |- context [start_unsol cfg ?a ?b ?c] => destruct (start_unsol cfg a b c) as [s2 o2] eqn:E end.
+    apply start_unsol_new in E; [|exact Hlt]. destruct E as (resp & k & dl & b & G1 & G2 & G3 & G4 & G5 & G6 & G7 & G8).
+    intros H; inversion H; subst s2 o2. right. exists resp, true, k, dl, b. repeat split; auto. }
+  destruct (negb match deadline with Some t => (t <=? s_now s)%Z | None => true end); [intros H; inversion H; subst; left; auto|].
+  destruct (negb (any_enabled s)); [intros H; inversion H; subst; left; auto|].
+  destruct (ask_unsol s) as [s1 [count body]] eqn:E0. apply ask_unsol_spec in E0.
+  destruct E0 as (_ & T2 & _ & _ & T5 & _).
+  destruct (s_enabled s) as [[c1 c2] c3].
+  destruct (count =? 0); [intros H; inversion H; subst; left; auto|].
+  match goal with |- context [start_unsol cfg ?a ?b ?c] => destruct (start_unsol cfg a b c) as [s3 o3] eqn:E end.
+  apply start_unsol_new in E; [|rewrite T5; exact Hlt].
+  destruct E as (resp & k & dl & b & G1 & G2 & G3 & G4 & G5 & G6 & G7 & G8).
+  intros H; inversion H; subst s3 o. right. exists resp, false, k, dl, b.
+  cbn in G7. rewrite T5 in G6, G7. repeat split; auto. right. exact G8.
+Qed.
+
+(* a retry re-sends the fragment kept in the wait state: same bytes, hence same sequence number,
+   and s_unsol_seq is not touched *)
+Theorem unsolicited_retry_same_bytes : forall cfg s resp n k dl,
+  s_control s = CUnsolWait resp n k dl ->
+  k <> Some 0%nat -> s_deferred s = None ->
+  fire_deadline cfg s =
+  (upd_control s (CUnsolWait resp n (match k with Some (S m) => Some m | x => x end) (confirm_deadline cfg s)),
+   [OInfo (IUnsolTimeout (ctl_seq (r_ctl resp)) true); OTx (o_master cfg) (response_bytes resp (s_unsol_buf s))]).
+Proof.
+  intros cfg s resp n k dl Hc Hk Hd. unfold fire_deadline. rewrite Hc, Hd.
+  destruct k as [[|m]|]; [contradiction| |]; reflexivity.
+Qed.
+
+Lemma Reach_U AP cfg s : Reach AP cfg s -> exists prev, U s prev.
+Proof.
+  induction 1 as [sel op iin a0 Ha|s ev ans HR IH Ha].
+  - destruct (ostart cfg sel op iin a0) as [s' o] eqn:E. apply ostart_U in E. cbn [fst]. eexists. exact (proj2 E).
+  - destruct IH as [prev IH]. pose proof (Reach_Inv_any _ _ _ HR) as HInv.
+    destruct (ostep cfg s ev ans) as [s' o] eqn:E. apply ostep_U with (prev := prev) in E; [|exact HInv|exact IH].
+    cbn [fst]. eexists. exact (proj2 E).
+Qed.
+
+Theorem unsol_seq_bounded : forall AP cfg s, Reach AP cfg s -> s_unsol_seq s < 16.
+Proof. intros AP cfg s HR. destruct (Reach_U _ _ _ HR) as [prev (H & _)]. exact H. Qed.
+
+(* reachability of the state after a run (used by the non-vacuity examples) *)
+Lemma Reach_ofinal AP cfg evs : forall s,
+  Reach AP cfg s -> Forall (fun ea => AP (snd ea)) evs -> Reach AP cfg (ofinal cfg s evs).
+Proof.
+  induction evs as [|[ev ans] evs IH]; intros s HR Hall; cbn [ofinal]; [exact HR|].
+  inversion Hall; subst. apply IH; [|assumption]. apply Reach_step; assumption.
+Qed.
+
+(* the invariant about the reader's fragment and the deferred READ, for reachable states *)
+Theorem no_pending_at_step_boundaries : forall AP cfg s,
+  Reach AP cfg s ->
+  s_pending s = None /\ (s_deferred s <> None -> exists resp n k dl, s_control s = CUnsolWait resp n k dl).
+Proof.
+  intros AP cfg s HR. destruct (Reach_J cfg AP s HR) as [J1 J2]. split; [exact J1|].
+  intros Hd. destruct (s_control s) as [|se dl r|resp n k dl] eqn:Ec; [exfalso; apply Hd, J2; reflexivity..|eauto].
+Qed.
+
+Lemma chain_ok_neighbours : forall l1 a b l2,
+  chain_ok None (l1 ++ a :: b :: l2) ->
+  b = a \/ ctl_seq (nth 0 b 0) = seq16_next (ctl_seq (nth 0 a 0)).
+Proof.
+  intros l1 a b l2 H. apply chain_ok_app in H. destruct H as [_ H].
+  cbn [chain_ok] in H. destruct H as (_ & H & _). exact H.
+Qed.
+
+(* ---------- 2/4 at full strength: retransmissions, when the digest is a function of the bytes ---- *)
+
+(* In the model the received bytes and the parser's digest of them are independent inputs of a step.
+   In the implementation the digest is computed from the bytes.  Under that hypothesis - every
+   received fragment's digest is `dg bytes` for one function dg - the response recorded with the last
+   request carries that request's sequence number (unless the request was a READ, whose record holds
+   the latest fragment of a multi-fragment response), and no response is recorded for a function code
+   that forbids one.  This closes the retransmission case of solicited_correlated and
+   no_reply_functions. *)
+Section Retransmission.
+  Variable cfg : ocfg.
+  Variable dg : list N -> digest.
+
+  Definition ev_ok (ev : oevent) : Prop := match ev with ERx _ _ bytes d => d = dg bytes | _ => True end.
+
+  Inductive ReachD : ostate -> Prop :=
+  | ReachD_start : forall sel op iin a0, ReachD (fst (ostart cfg sel op iin a0))
+  | ReachD_step : forall s ev ans, ReachD s -> ev_ok ev -> ReachD (fst (ostep cfg s ev ans)).
+
+  Lemma ReachD_Reach s : ReachD s -> Reach any_answers cfg s.
+  Proof. induction 1; constructor; auto; exact I. Qed.
+
+  Definition resp_fits (ctl fn : N) (obj : objres) (r : response) : Prop :=
+    (fn <> 1 -> ctl_seq (r_ctl r) = ctl_seq ctl) /\
+    (forall hdrs rh, obj = ObjOk hdrs rh -> ~ In fn [6; 8; 10; 12]).
+
+  Definition rec_ok (l : last_request) : Prop :=
+    exists ctl fn obj, dg (lr_bytes l) = DOk ctl fn RvOk obj /\ lr_seq l = ctl_seq ctl /\ fn <> 0 /\
+      forall r, lr_response l = Some r -> resp_fits ctl fn obj r.
+
+  Definition rec_read (l : last_request) : Prop := exists ctl obj, dg (lr_bytes l) = DOk ctl 1 RvOk obj.
+
+  Definition K (s : ostate) : Prop :=
+    (forall l, s_last s = Some l -> rec_ok l) /\
+    (forall se dl r, s_control s = CSolWait se dl r -> se_fin se = false -> exists l, s_last s = Some l /\ rec_read l) /\
+    (forall df, s_deferred s = Some df -> exists ctl obj, dg (df_bytes df) = DOk ctl 1 RvOk obj /\ df_seq df = ctl_seq ctl) /\
+    (forall from bc bytes d fid, s_pending s = Some (from, bc, bytes, d, fid) -> d = dg bytes).
+
+  Lemma K_fields s s' :
+    s_last s' = s_last s -> s_control s' = s_control s -> s_deferred s' = s_deferred s -> s_pending s' = s_pending s ->
+    K s -> K s'.
+  Proof. intros H1 H2 H3 H4 (K1 & K2 & K3 & K4). unfold K. rewrite H1, H2, H3, H4. auto. Qed.
+
+  Lemma K_sc s s' : same_core s s' -> K s -> K s'.
+  Proof.
+    intros (_ & A2 & A3 & _ & _ & A6 & _ & A8 & _). apply K_fields; assumption.
+  Qed.
+
+  Lemma K_idle s c : K s -> (forall se dl r, c <> CSolWait se dl r) -> K (upd_control s c).
+  Proof.
+    intros (K1 & K2 & K3 & K4) Hc. split; [exact K1|]. split; [|split; [exact K3|exact K4]].
+    intros se dl r H. cbn in H. exfalso. exact (Hc _ _ _ H).
+  Qed.
+
+  Lemma K_no_pending s : K s -> K (upd_pending s None).
+  Proof. intros (K1 & K2 & K3 & K4). split; [exact K1|]. split; [exact K2|]. split; [exact K3|]. intros; discriminate. Qed.
+
+  Lemma K_set_pending s from bc bytes fid : K s -> K (upd_pending s (Some (from, bc, bytes, dg bytes, fid))).
+  Proof.
+    intros (K1 & K2 & K3 & K4). split; [exact K1|]. split; [exact K2|]. split; [exact K3|].
+    intros f b by0 d0 fi H. cbn in H. inversion H; subst. reflexivity.
+  Qed.
+
+  Lemma sent_fits ctl fn obj r r' : sent_of r r' -> resp_fits ctl fn obj r -> resp_fits ctl fn obj r'.
+  Proof. intros Hs [A B]. split; [|exact B]. intros Hf. rewrite (sent_of_seq _ _ Hs). auto. Qed.
+
+  (* the last-request record and the confirm wait after the tail of handle_one_request_from_idle *)
+  Lemma hfi_finish_KL from bytes fn s1 resp se rep o1 s' o ctl fnn obj :
+    s_control s1 = CIdle -> dg bytes = DOk ctl fnn RvOk obj -> fnn <> 0 ->
+    (forall r, resp = Some r -> resp_fits ctl fnn obj r) ->
+    (forall x, se = Some x -> se_fin x = false -> fnn = 1) ->
+    hfi_finish cfg from (ctl_seq ctl) bytes fn s1 resp se rep o1 = (s', o) ->
+    (forall l, s_last s' = Some l -> rec_ok l) /\
+    (forall x dl r0, s_control s' = CSolWait x dl r0 -> se_fin x = false -> exists l, s_last s' = Some l /\ rec_read l).
+  Proof.
+    intros Hc Hdg Hf0 Hr Hse H. apply hfi_finish_state in H.
+    destruct H as (ropt & se' & H1 & H2 & H3 & H4). rewrite H1. split.
+    - intros l Hl. inversion Hl; subst l. exists ctl, fnn, obj. cbn.
+      split; [exact Hdg|]. split; [reflexivity|]. split; [exact Hf0|].
+      intros r Hro. subst ropt. destruct resp as [r0|]; [|specialize (H2 eq_refl); discriminate].
+      destruct (H3 r0 eq_refl) as (r' & Hr' & Hrel). inversion Hr'; subst r'.
+      destruct rep; [subst r; auto|]. eapply sent_fits; [exact Hrel|auto].
+    - intros x dl r0 Hcx Hfin. destruct H4 as [H4|(y & dl' & H4 & H5)].
+      + rewrite H4, Hc in Hcx. discriminate.
+      + rewrite H4 in Hcx. inversion Hcx; subst y dl' r0.
+        destruct H5 as [H5|H5]; [|rewrite H5 in Hfin; discriminate].
+        eexists. split; [reflexivity|]. exists ctl, obj. cbn. rewrite Hdg. rewrite (Hse x H5 Hfin). reflexivity.
+  Qed.
+
+  Lemma eqb_neq_0 fn : (fn =? fn_confirm) = false -> fn <> 0.
+  Proof. intros H. apply N.eqb_neq in H. exact H. Qed.
+
+  Lemma handle_from_idle_K s from bc bytes fid s' o :
+    K s -> s_control s = CIdle ->
+    handle_from_idle cfg s from bc bytes (dg bytes) fid = (s', o) -> K s'.
+  Proof.
+    intros HK Hc H. pose proof HK as (K1 & K2 & K3 & K4).
+    pose proof (handle_from_idle_frame _ _ _ _ _ _ _ _ _ H) as [A _].
+    destruct A as (_ & _ & _ & A4 & _ & A6 & _).
+    assert (Hgoal : (forall l, s_last s' = Some l -> rec_ok l) /\
+                    (forall x dl r0, s_control s' = CSolWait x dl r0 -> se_fin x = false -> exists l, s_last s' = Some l /\ rec_read l)).
+    2:{ destruct Hgoal as [G1 G2]. unfold K. rewrite A4, A6. auto. }
+    assert (Hsame : forall s1, same_core s s1 ->
+              (forall l, s_last s1 = Some l -> rec_ok l) /\
+              (forall x dl r0, s_control s1 = CSolWait x dl r0 -> se_fin x = false -> exists l, s_last s1 = Some l /\ rec_read l)).
+    { intros s1 (_ & B2 & B3 & _). rewrite B2, B3. auto. }
+    rewrite handle_from_idle_eq in H. destruct (to_treq cfg from (dg bytes)) as [|sq|ctl fn obj] eqn:Etq.
+    - inversion H; subst. apply Hsame, sc_refl.
+    - apply write_error_response_spec in H. apply Hsame. exact (proj1 H).
+    - apply to_treq_request in Etq. cbv zeta in H.
+      destruct bc as [m|].
+      { rewrite classify_bcast in H. destruct (process_broadcast cfg s m fid ctl fn bytes obj) as [s1 o1] eqn:E.
+        apply process_broadcast_spec in E. inversion H; subst. apply Hsame. exact (proj1 E). }
+      pose proof (classify_unicast_cases s bytes ctl fn obj) as Hcl.
+      destruct (classify s None bytes ctl fn obj) as [iin2|hdrs rh|resp hdrs rh|hdrs|last|m|q|q].
+      + destruct Hcl as [C0 C1]. subst obj.
+        eapply hfi_finish_KL; [exact Hc|exact Etq|apply eqb_neq_0; exact C0| | |exact H].
+        * intros r Hr; inversion Hr; subst. split; [intros _; cbn [empty_solicited r_ctl]; rewrite ctl_byte_seq; apply ctl_seq_idem|].
+          intros hdrs rh Ho. discriminate.
+        * intros x Hx. discriminate.
+      + destruct Hcl as (C0 & C1 & C2). apply N.eqb_eq in C1. subst fn.
+        destruct (format_first_read_response s (ctl_seq ctl)) as [[[s1 r] se] o1] eqn:E.
+        apply format_first_read_response_spec in E. destruct E as (E1 & _).
+        eapply hfi_finish_KL; [|exact Etq|discriminate| | |exact H].
+        * destruct E1 as (_ & E1 & _). congruence.
+        * intros r0 Hr. split; [intros C; exfalso; apply C; reflexivity|]. intros hdrs0 rh0 _ Hin.
+          cbn in Hin. repeat (destruct Hin as [Hin|Hin]; [discriminate|]). exact Hin.
+        * reflexivity.
+      + destruct Hcl as (C0 & C1 & C2). apply N.eqb_eq in C1. subst fn.
+        destruct (format_first_read_response s (ctl_seq ctl)) as [[[s1 r] se] o1] eqn:E.
+        apply format_first_read_response_spec in E. destruct E as (E1 & _).
+        eapply hfi_finish_KL; [|exact Etq|discriminate| | |exact H].
+        * destruct E1 as (_ & E1 & _). congruence.
+        * intros r0 Hr. split; [intros C; exfalso; apply C; reflexivity|]. intros hdrs0 rh0 _ Hin.
+          cbn in Hin. repeat (destruct Hin as [Hin|Hin]; [discriminate|]). exact Hin.
+        * reflexivity.
+      + destruct Hcl as (C0 & C1 & [rh C2]). subst obj.
+        destruct (handle_non_read cfg s fn (ctl_seq ctl) fid bytes hdrs) as [[s1 r] o1] eqn:E.
+        pose proof (handle_non_read_spec _ _ _ _ _ _ _ _ _ _ E) as (E1 & _ & E3).
+        eapply hfi_finish_KL; [|exact Etq|apply eqb_neq_0; exact C0| | |exact H].
+        * destruct E1 as (_ & E1 & _). congruence.
+        * intros r0 Hr. subst r. destruct (E3 r0 eq_refl) as [E4 _]. split.
+          -- intros _. rewrite E4, ctl_byte_seq. apply ctl_seq_idem.
+          -- intros hdrs0 rh0 _ Hin. pose proof (hnr_no_reply _ _ _ _ _ _ _ _ _ _ Hin E). discriminate.
+        * intros x Hx. discriminate.
+      + destruct Hcl as (C0 & C1 & _ & (l & L1 & L2 & L3 & L4)).
+        destruct (K1 l L1) as (ctl' & fn' & obj' & R1 & R2 & R3 & R4).
+        rewrite L3, Etq in R1. inversion R1; subst ctl' fn' obj'.
+        match type of H with hfi_finish _ _ _ _ _ ?s1 _ _ _ _ = _ => set (s1' := s1) in H end.
+        assert (S1 : same_core s s1').
+        { subst s1'. destruct (s_select s) as [sel|]; [|apply sc_refl].
+          destruct ((ss_frame_id sel + 1) mod 4294967296 =? fid); eauto with sc. }
+        eapply hfi_finish_KL; [|exact Etq|exact R3| | |exact H].
+        * destruct S1 as (_ & S1 & _). congruence.
+        * intros r0 Hr. apply R4. congruence.
+        * intros x Hx. discriminate.
+      + destruct Hcl.
+      + inversion H; subst. apply Hsame, sc_refl.
+      + inversion H; subst. apply Hsame, sc_refl.
+  Qed.
+
+  Lemma unsol_wait_fragment_K s resp from bc bytes fid s' res o :
+    K s -> is_unsol_wait (s_control s) = true ->
+    unsol_wait_fragment cfg s resp from bc bytes (dg bytes) fid = (s', res, o) -> K s'.
+  Proof.
+    intros HK Hc H. pose proof HK as (K1 & K2 & K3 & K4).
+    pose proof (unsol_wait_fragment_frame _ _ _ _ _ _ _ _ _ _ _ H) as [A _].
+    destruct A as (_ & A2 & _ & _ & _ & A6 & _).
+    assert (Hgoal : (forall l, s_last s' = Some l -> rec_ok l) /\
+                    (forall df, s_deferred s' = Some df -> exists ctl obj, dg (df_bytes df) = DOk ctl 1 RvOk obj /\ df_seq df = ctl_seq ctl)).
+    2:{ destruct Hgoal as [G1 G3]. split; [exact G1|]. split; [|split; [exact G3|rewrite A6; exact K4]].
+        intros se dl r Hcs. rewrite A2 in Hcs. rewrite Hcs in Hc. discriminate. }
+    assert (Hdrop : forall s1, same_core (upd_deferred s None) s1 ->
+              (forall l, s_last s1 = Some l -> rec_ok l) /\
+              (forall df, s_deferred s1 = Some df -> exists ctl obj, dg (df_bytes df) = DOk ctl 1 RvOk obj /\ df_seq df = ctl_seq ctl)).
+    { intros s1 (_ & _ & B3 & _ & _ & B6 & _). cbn in B3, B6. rewrite B3, B6. split; [exact K1|discriminate]. }
+    unfold unsol_wait_fragment in H. destruct (to_treq cfg from (dg bytes)) as [|sq|ctl fn obj] eqn:Etq.
+    - inversion H; subst. auto.
+    - destruct (write_error_response (upd_deferred s None) from bc sq) as [s1 o1] eqn:E.
+      apply write_error_response_spec in E. inversion H; subst. apply Hdrop. exact (proj1 E).
+    - apply to_treq_request in Etq.
+      destruct bc as [m|].
+      { rewrite classify_bcast in H.
+        destruct (process_broadcast cfg (upd_deferred s None) m fid ctl fn bytes obj) as [s1 o1] eqn:E.
+        apply process_broadcast_spec in E. inversion H; subst. apply Hdrop. exact (proj1 E). }
+      pose proof (classify_unicast_cases s bytes ctl fn obj) as Hcl.
+      destruct (classify s None bytes ctl fn obj) as [iin2|hdrs rh|rsp hdrs rh|hdrs|last|m|q|q].
+      + destruct (write_solicited (upd_deferred s None) from (empty_solicited (ctl_seq ctl) iin2)) as [[s1 r1] o1] eqn:E.
+        apply write_solicited_spec in E. inversion H; subst. apply Hdrop. exact (proj1 E).
+      + destruct Hcl as (C0 & C1 & C2). apply N.eqb_eq in C1. subst fn. inversion H; subst.
+        split; [exact K1|]. intros df Hdf. cbn in Hdf. inversion Hdf; subst df. cbn. eauto.
+      + destruct Hcl as (C0 & C1 & C2). apply N.eqb_eq in C1. subst fn. inversion H; subst.
+        split; [exact K1|]. intros df Hdf. cbn in Hdf. inversion Hdf; subst df. cbn. eauto.
+      + destruct Hcl as (C0 & C1 & [rh C2]). subst obj.
+        destruct (handle_non_read cfg (upd_deferred s None) fn (ctl_seq ctl) fid bytes hdrs) as [[s1 r] o1] eqn:E.
+        pose proof (handle_non_read_spec _ _ _ _ _ _ _ _ _ _ E) as (E1 & _ & E3).
+        assert (Hrec : forall ropt s2, s_deferred s2 = None ->
+                  (forall r1, ropt = Some r1 -> exists r0, r = Some r0 /\ sent_of r0 r1) ->
+                  (forall l, s_last (upd_last s2 (mk_last (ctl_seq ctl) bytes ropt None)) = Some l -> rec_ok l) /\
+                  (forall df, s_deferred (upd_last s2 (mk_last (ctl_seq ctl) bytes ropt None)) = Some df ->
+                      exists ctl0 obj0, dg (df_bytes df) = DOk ctl0 1 RvOk obj0 /\ df_seq df = ctl_seq ctl0)).
+        { intros ropt s2 Hd2 Hro. split; [|cbn; rewrite Hd2; discriminate].
+          cbn. intros l Hl. inversion Hl; subst l. exists ctl, fn, (ObjOk hdrs rh). cbn.
+          split; [exact Etq|]. split; [reflexivity|]. split; [apply eqb_neq_0; exact C0|].
+          intros r1 Hr1. destruct (Hro r1 Hr1) as (r0 & -> & Hs). destruct (E3 r0 eq_refl) as [E4 _].
+          eapply sent_fits; [exact Hs|]. split.
+          - intros _. rewrite E4, ctl_byte_seq. apply ctl_seq_idem.
+          - intros hdrs0 rh0 _ Hin. pose proof (hnr_no_reply _ _ _ _ _ _ _ _ _ _ Hin E). discriminate. }
+        assert (Hd1 : s_deferred s1 = None) by (destruct E1 as (_ & _ & _ & _ & _ & E1 & _); exact E1).
+        destruct r as [r0|].
+        * destruct (write_solicited s1 from r0) as [[s2 r1] o2] eqn:E2.
+          apply write_solicited_spec in E2. destruct E2 as (F1 & _ & F4 & F5 & F6 & F7).
+          inversion H; subst. apply Hrec.
+          -- destruct F1 as (_ & _ & _ & _ & _ & F1 & _). congruence.
+          -- intros r2 Hr2. inversion Hr2; subst r2. exists r0. split; [reflexivity|]. exact (conj F4 (conj F5 (conj F6 F7))).
+        * inversion H; subst. apply Hrec; [exact Hd1|]. intros r2 Hr2. discriminate.
+      + inversion H; subst. cbn. split; [exact K1|discriminate].
+      + destruct Hcl.
+      + inversion H; subst. destruct (s_last_bcast s) as [[]|]; auto.
+      + destruct (q =? ctl_seq (r_ctl resp)); inversion H; subst; auto.
+  Qed.
+
+  Lemma handle_deferred_K s ns s' o :
+    K s -> s_control s = CIdle -> handle_deferred cfg s ns = (s', o) -> K s'.
+  Proof.
+    intros HK Hc H. pose proof HK as (K1 & K2 & K3 & K4).
+    destruct (s_deferred s) as [df|] eqn:Ed.
+    - eapply handle_deferred_some in H; [|exact Ed].
+      destruct H as (s3 & r & r' & pre & post & se' & _ & _ & _ & _ & _ & _ & _ & G8 & G9 & G10 & _ & _ & _ & _ & _ & _ & _ & G17).
+      destruct (K3 df eq_refl) as (ctl & obj & D1 & D2).
+      assert (Hl : forall l, s_last s' = Some l -> rec_ok l /\ rec_read l).
+      { intros l Hl. rewrite G8 in Hl. inversion Hl; subst l. split.
+        - exists ctl, 1, obj. cbn. split; [exact D1|]. split; [exact D2|]. split; [discriminate|].
+          intros r0 _. split; [intros C; exfalso; apply C; reflexivity|]. intros hdrs0 rh0 _ Hin.
+          cbn in Hin. repeat (destruct Hin as [Hin|Hin]; [discriminate|]). exact Hin.
+        - exists ctl, obj. exact D1. }
+      split; [intros l Hl'; exact (proj1 (Hl l Hl'))|]. split; [|split; [rewrite G9; discriminate|rewrite G10; exact K4]].
+      intros x dl r0 Hcx _. rewrite G8. eexists. split; [reflexivity|]. apply (Hl _ G8).
+    - rewrite handle_deferred_none in H by exact Ed. inversion H; subst. exact HK.
+  Qed.
+
+  Lemma end_unsol_K s is_null res s' ns o : K s -> end_unsol cfg s is_null res = (s', ns, o) -> K s'.
+  Proof.
+    intros (K1 & K2 & K3 & K4) H. apply end_unsol_frame in H. destruct H as (F1 & F2 & F3 & F4 & _).
+    unfold K. rewrite F1, F2, F3, F4. split; [exact K1|]. split; [discriminate|]. split; assumption.
+  Qed.
+
+  Lemma check_unsolicited_K s s' ns o : K s -> check_unsolicited cfg s = (s', ns, o) -> K s'.
+  Proof.
+    intros (K1 & K2 & K3 & K4) H. apply check_unsolicited_frame in H. destruct H as (_ & A & B).
+    destruct A as (_ & A2 & _ & A4 & A5 & _). unfold K. rewrite A2, A4, A5.
+    split; [exact K1|]. split; [|split; assumption].
+    intros se dl r Hcs. destruct B as [B|(r1 & n1 & k1 & d1 & B)]; [rewrite B in Hcs; eauto|congruence].
+  Qed.
+
+  Lemma idle_run_K fuel : forall st s s' o,
+    K s -> s_control s = CIdle -> idle_run fuel cfg st s = (s', o) -> K s'.
+  Proof.
+    induction fuel as [|f IH]; intros st s s' o HK Hc H; cbn [idle_run] in H.
+    { inversion H; subst. exact HK. }
+    destruct st as [| |ns|ns].
+    - destruct (match s_pending s with
+                | Some (from, bc, bytes, d, fid) => handle_from_idle cfg (upd_pending s None) from bc bytes d fid
+                | None => (s, [])
+                end) as [s1 o1] eqn:E1.
+      assert (HK1 : K s1).
+      { destruct (s_pending s) as [[[[[from bc] bytes] d] fid]|] eqn:Epen.
+        - pose proof (proj2 (proj2 (proj2 HK)) _ _ _ _ _ Epen) as Hd. subst d.
+          eapply handle_from_idle_K; [apply K_no_pending; exact HK|exact Hc|exact E1].
+        - inversion E1; subst. exact HK. }
+      destruct (s_control s1) eqn:Ec1; [|inversion H; subst; exact HK1..].
+      destruct (idle_run f cfg St2 s1) as [s2 o2] eqn:E2. inversion H; subst. eapply IH; eassumption.
+    - destruct (check_unsolicited cfg s) as [[s2 ns] o2] eqn:E2.
+      apply check_unsolicited_K in E2; [|exact HK].
+      destruct (s_control s2) as [|se dl r|resp is_null retries dl] eqn:Ec2.
+      + destruct (idle_run f cfg (St3 false) s2) as [s3 o3] eqn:E3. inversion H; subst. eapply IH; eassumption.
+      + inversion H; subst. exact E2.
+      + destruct (s_pending s2) as [[[[[from bc] bytes] d] fid]|] eqn:Epen; [|inversion H; subst; exact E2].
+        pose proof (proj2 (proj2 (proj2 E2)) _ _ _ _ _ Epen) as Hd. subst d.
+        destruct (unsol_wait_fragment cfg (upd_pending s2 None) resp from bc bytes (dg bytes) fid) as [[s3 res] o3] eqn:E3.
+        apply unsol_wait_fragment_K in E3; [|apply K_no_pending; exact E2|cbn; rewrite Ec2; reflexivity].
+        destruct res as [r|]; [|inversion H; subst; exact E3].
+        destruct (end_unsol cfg s3 is_null r) as [[s4 ns4] o4] eqn:E4.
+        pose proof (end_unsol_frame _ _ _ _ _ _ _ E4) as (F1 & _).
+        apply end_unsol_K in E4; [|exact E3].
+        destruct (idle_run f cfg (St3 ns4) s4) as [s5 o5] eqn:E5. inversion H; subst. eapply IH; eassumption.
+    - destruct (handle_deferred cfg s ns) as [s3 o3] eqn:E3.
+      apply handle_deferred_K in E3; [|exact HK|exact Hc].
+      destruct (s_control s3) eqn:Ec3; [|inversion H; subst; exact E3..].
+      destruct (idle_run f cfg (St4 ns) s3) as [s4 o4] eqn:E4. inversion H; subst. eapply IH; eassumption.
+    - destruct (s_pending s); [eapply IH; eassumption|].
+      destruct ns; [eapply IH; eassumption|].
+      destruct (s_notify s); [eapply IH; [| |exact H]; [exact HK|exact Hc]|].
+      inversion H; subst. exact HK.
+  Qed.
+
+  Lemma resume_at_K st s s' o : K s -> s_control s = CIdle -> resume_at cfg st s = (s', o) -> K s'.
+  Proof. unfold resume_at. apply idle_run_K. Qed.
+  Lemma idle_loop_K n s s' o : K s -> s_control s = CIdle -> idle_loop n cfg s = (s', o) -> K s'.
+  Proof. unfold idle_loop. apply idle_run_K. Qed.
+
+  Lemma fire_deadline_K s s' o : K s -> fire_deadline cfg s = (s', o) -> K s'.
+  Proof.
+    intros HK. unfold fire_deadline. destruct (s_control s) as [|se dl r|resp is_null retries dl] eqn:Ec.
+    - apply resume_at_K; assumption.
+    - destruct (resume_at cfg (stage_of r) (upd_control s CIdle)) as [s1 o1] eqn:E.
+      apply resume_at_K in E; [|apply K_idle; [exact HK|discriminate]|reflexivity].
+      intros H; inversion H; subst. exact E.
+    - match goal with |- (if ?c then _ else _) = _ -> _ => destruct c end.
+      + intros H; inversion H; subst. apply K_idle; [exact HK|discriminate].
+      + destruct (end_unsol cfg s is_null UrTimeout) as [[s1 ns] o1] eqn:E1.
+        pose proof (end_unsol_frame _ _ _ _ _ _ _ E1) as (F1 & _).
+        apply end_unsol_K in E1; [|exact HK].
+        destruct (resume_at cfg (St3 ns) s1) as [s2 o2] eqn:E2. apply resume_at_K in E2; [|exact E1|exact F1].
+        intros H; inversion H; subst. exact E2.
+  Qed.
+
+  Lemma advance_K fuel : forall s target s' o, K s -> advance fuel cfg s target = (s', o) -> K s'.
+  Proof.
+    induction fuel as [|f IH]; intros s target s' o HK H; cbn [advance] in H.
+    { inversion H; subst. exact HK. }
+    destruct (next_deadline cfg s) as [d|]; [|inversion H; subst; exact HK].
+    destruct (d <=? target)%Z; [|inversion H; subst; exact HK].
+    destruct (fire_deadline cfg (upd_now s (Z.max d (s_now s)))) as [s1 o1] eqn:E1.
+    apply fire_deadline_K in E1; [|exact HK].
+    destruct (advance f cfg s1 target) as [s2 o2] eqn:E2. apply IH in E2; [|exact E1].
+    inversion H; subst. exact E2.
+  Qed.
+
+  Lemma on_rx_K s from bc bytes s' o : K s -> on_rx cfg s from bc bytes (dg bytes) = (s', o) -> K s'.
+  Proof.
+    intros HK. unfold on_rx.
+    set (fid := (s_frame_id s + 1) mod 4294967296).
+    assert (HK0 : K (upd_frame_id s fid)) by exact HK.
+    change (s_control (upd_frame_id s fid)) with (s_control s).
+    destruct (s_control s) as [|se dl r|resp is_null retries dl] eqn:Ec.
+    - apply idle_loop_K; [apply K_set_pending; exact HK0|exact Ec].
+    - destruct (sol_wait_fragment cfg (upd_frame_id s fid) se dl from bc bytes (dg bytes)) as [oc o1] eqn:E1.
+      destruct oc as [dl'|respond_to|].
+      + intros H; inversion H; subst. destruct HK0 as (K1 & K2 & K3 & K4).
+        split; [exact K1|]. split; [|split; assumption].
+        intros x dl0 r0 Hcx Hfin. cbn in Hcx. inversion Hcx; subst. cbn. apply (K2 _ _ _ Ec Hfin).
+      + destruct (se_fin se) eqn:Efin.
+        * match goal with |- context [resume_at cfg ?a ?b] => destruct (resume_at cfg a b) as [s2 o2] eqn:E2 end.
+          apply resume_at_K in E2; [|apply K_idle; [exact HK0|discriminate]|reflexivity].
+          intros H; inversion H; subst. exact E2.
+        * match goal with |- context [format_read_response ?a ?b ?c ?e] =>
+            destruct (format_read_response a b c e) as [[[s2 rsp] next] o2] eqn:E2 end.
+          apply format_read_response_spec in E2. destruct E2 as (B1 & _).
+          destruct (write_solicited s2 respond_to rsp) as [[s3 rsp'] o3] eqn:E3.
+          apply write_solicited_spec in E3. destruct E3 as (C1 & _).
+          pose proof (sc_trans _ _ _ B1 C1) as S.
+          destruct S as (_ & S2 & S3 & _ & _ & S6 & _ & S8 & _). cbn in S2, S3, S6, S8.
+          destruct HK0 as (K1 & K2 & K3 & K4). cbn in K1, K2, K3, K4.
+          destruct (K2 _ _ _ Ec Efin) as (l & L1 & (ctlr & objr & L2)).
+          destruct (K1 l L1) as (ctl' & fn' & obj' & R1 & R2 & R3 & R4).
+          rewrite L2 in R1. inversion R1; subst ctl' fn' obj'.
+          match goal with |- context [upd_last s3 ?x] => set (nl := x) end.
+          assert (Hnl : nl = Some {| lr_seq := lr_seq l; lr_bytes := lr_bytes l; lr_response := Some rsp'; lr_series := lr_series l |}).
+          { subst nl. rewrite S3, L1. reflexivity. }
+          assert (HK4 : forall c, K (upd_control (upd_last s3 nl) c)).
+          { intros c. split; [|split; [|split]].
+            - cbn. intros l0 Hl0. rewrite Hnl in Hl0. inversion Hl0; subst l0.
+              exists ctlr, 1, objr. cbn. split; [exact L2|]. split; [exact R2|]. split; [discriminate|].
+              intros r0 _. split; [intros C; exfalso; apply C; reflexivity|]. intros hdrs0 rh0 _ Hin.
+              cbn in Hin. repeat (destruct Hin as [Hin|Hin]; [discriminate|]). exact Hin.
+            - cbn. intros x dl0 r0 _ _. rewrite Hnl. eexists. split; [reflexivity|]. exists ctlr, objr. exact L2.
+            - cbn. rewrite S6. exact K3.
+            - cbn. rewrite S8. exact K4. }
+          destruct next as [n|].
+          -- intros H; inversion H; subst. apply HK4.
+          -- match goal with |- context [resume_at cfg ?a ?b] => destruct (resume_at cfg a b) as [s5 o5] eqn:E5 end.
+             apply resume_at_K in E5; [|apply HK4|reflexivity].
+             intros H; inversion H; subst. exact E5.
+      + match goal with |- context [resume_at cfg ?a ?b] => destruct (resume_at cfg a b) as [s2 o2] eqn:E2 end.
+        apply resume_at_K in E2; [|apply (K_set_pending (upd_control (upd_frame_id s fid) CIdle)); apply K_idle; [exact HK0|discriminate]|reflexivity].
+        intros H; inversion H; subst. exact E2.
+    - destruct (unsol_wait_fragment cfg (upd_frame_id s fid) resp from bc bytes (dg bytes) fid) as [[s1 res] o1] eqn:E1.
+      apply unsol_wait_fragment_K in E1; [|exact HK0|cbn; rewrite Ec; reflexivity].
+      destruct res as [r|]; [|intros H; inversion H; subst; exact E1].
+      destruct (end_unsol cfg s1 is_null r) as [[s2 ns] o2] eqn:E2.
+      pose proof (end_unsol_frame _ _ _ _ _ _ _ E2) as (F1 & _).
+      apply end_unsol_K in E2; [|exact E1].
+      destruct (resume_at cfg (St3 ns) s2) as [s3 o3] eqn:E3. apply resume_at_K in E3; [|exact E2|exact F1].
+      intros H; inversion H; subst. exact E3.
+  Qed.
+
+  Lemma ostep_K s ev answers s' o : K s -> ev_ok ev -> ostep cfg s ev answers = (s', o) -> K s'.
+  Proof.
+    intros HK Hev. assert (HK0 : K (upd_answers s answers)) by exact HK.
+    unfold ostep. destruct ev as [from bc bytes d|ms| |sel op|v|].
+    - cbn in Hev. subst d.
+      destruct (on_rx cfg (upd_answers s answers) from bc bytes (dg bytes)) as [s1 o1] eqn:E1.
+      apply on_rx_K in E1; [|exact HK0].
+      destruct (advance 64 cfg s1 (s_now s1 + settle_ms)) as [s2 o2] eqn:E2.
+      apply advance_K in E2; [|exact E1]. intros H; inversion H; subst. exact E2.
+    - destruct (advance 4096 cfg (upd_answers s answers) (s_now (upd_answers s answers) + ms)) as [s1 o1] eqn:E1.
+      apply advance_K in E1; [|exact HK0]. intros H; inversion H; subst. exact E1.
+    - destruct (match s_control (upd_answers s answers) with
+                | CIdle => idle_loop 8 cfg (upd_answers s answers)
+                | _ => (upd_notify (upd_answers s answers) true, [])
+                end) as [s1 o1] eqn:E1.
+      assert (H1 : K s1).
+      { destruct (s_control (upd_answers s answers)) eqn:Ec.
+        - eapply idle_loop_K; [exact HK0|exact Ec|exact E1].
+        - inversion E1; subst. exact HK0.
+        - inversion E1; subst. exact HK0. }
+      destruct (advance 64 cfg s1 (s_now s1 + settle_ms)) as [s2 o2] eqn:E2.
+      apply advance_K in E2; [|exact H1]. intros H; inversion H; subst. exact E2.
+    - intros H; inversion H; subst. exact HK0.
+    - intros H; inversion H; subst. exact HK0.
+    - match goal with |- context [idle_loop 8 cfg ?a] => destruct (idle_loop 8 cfg a) as [s2 o2] eqn:E2 end.
+      apply idle_loop_K in E2; [| |reflexivity].
+      2:{ split; [cbn; discriminate|]. split; [cbn; discriminate|]. split; cbn; discriminate. }
+      destruct (advance 64 cfg s2 (s_now s2 + settle_ms)) as [s3 o3] eqn:E3.
+      apply advance_K in E3; [|exact E2]. intros H; inversion H; subst. exact E3.
+  Qed.
+
+  Lemma ReachD_K s : ReachD s -> K s.
+  Proof.
+    induction 1 as [sel op iin a0|s ev ans HR IH Hev].
+    - destruct (ostart cfg sel op iin a0) as [s' o] eqn:E. unfold ostart in E.
+      apply idle_loop_K in E; [exact E| |reflexivity].
+      split; [cbn; discriminate|]. split; [cbn; discriminate|]. split; cbn; discriminate.
+    - destruct (ostep cfg s ev ans) as [s' o] eqn:E. eapply ostep_K; eassumption.
+  Qed.
+End Retransmission.
+
+Lemma hfi_finish_head cfg from seq bytes fn s1 resp se rep o1 s' o :
+  hfi_finish cfg from seq bytes fn s1 resp se rep o1 = (s', o) -> exists rest, o = OInfo (IIdleRequest fn seq) :: rest.
+Proof.
+  destruct resp as [r|].
+  - intros H. apply hfi_finish_some in H. destruct H as (s2 & r' & pre & post & _ & _ & H & _). subst o. eauto.
+  - rewrite hfi_finish_none. intros H; inversion H; subst. eauto.
+Qed.
+
+Lemma hfi_head cfg s0 from bc bytes d fid ctl fn obj s1 o1 :
+  to_treq cfg from d = TqRequest ctl fn obj -> handle_from_idle cfg s0 from bc bytes d fid = (s1, o1) ->
+  exists rest, o1 = OInfo (IIdleRequest fn (ctl_seq ctl)) :: rest.
+Proof.
+  intros Htq. rewrite handle_from_idle_eq, Htq. cbv zeta.
+  destruct (classify s0 bc bytes ctl fn obj) as [iin2|hdrs rh|resp hdrs rh|hdrs|last|m|q|q].
+  - apply hfi_finish_head.
+  - destruct (format_first_read_response s0 (ctl_seq ctl)) as [[[s2 r] se] o2]. apply hfi_finish_head.
+  - destruct (format_first_read_response s0 (ctl_seq ctl)) as [[[s2 r] se] o2]. apply hfi_finish_head.
+  - destruct (handle_non_read cfg s0 fn (ctl_seq ctl) fid bytes hdrs) as [[s2 r] o2]. apply hfi_finish_head.
+  - apply hfi_finish_head.
+  - destruct (process_broadcast cfg s0 m fid ctl fn bytes obj) as [s2 o2]. intros H; inversion H; subst. cbn [app]. eauto.
+  - intros H; inversion H; subst. eauto.
+  - intros H; inversion H; subst. eauto.
+Qed.
+
+(* 2, all classifications: with the digest a function of the bytes (ReachD, and d = dg bytes for the
+   request itself), EVERY accepted unicast request processed from idle - a retransmission included -
+   is answered, if at all, to its sender and with its own sequence number *)
+Theorem solicited_correlated_full : forall cfg dg s from bytes answers ctl fn obj,
+  ReachD cfg dg s -> s_control s = CIdle ->
+  to_treq cfg from (dg bytes) = TqRequest ctl fn obj ->
+  (exists rest, snd (ostep cfg s (ERx from None bytes (dg bytes)) answers) = OInfo (IIdleRequest fn (ctl_seq ctl)) :: rest) /\
+  Forall (sol_tx_correlated from (ctl_seq ctl)) (snd (ostep cfg s (ERx from None bytes (dg bytes)) answers)).
+Proof.
+  intros cfg dg s from bytes answers ctl fn obj HRD Hc Htq.
+  pose proof (ReachD_Reach _ _ _ HRD) as HR. pose proof (ReachD_K _ _ _ HRD) as (K1 & _).
+  destruct (classify s None bytes ctl fn obj) as [iin2|hdrs rh|resp hdrs rh|hdrs|last|m|q|q] eqn:Ecl;
+    try (apply (solicited_correlated any_answers cfg s from bytes (dg bytes) answers ctl fn obj);
+         [exact HR|exact Hc|exact Htq|intros last'; rewrite Ecl; discriminate]).
+  split.
+  - destruct (ostep cfg s (ERx from None bytes (dg bytes)) answers) as [s' out] eqn:E.
+    destruct (ostep_rx_idle _ _ _ _ _ _ _ _ _ _ HR Hc E) as (s1 & o1 & rest & H1 & H2 & H3).
+    destruct (hfi_head _ _ _ _ _ _ _ _ _ _ _ _ Htq H1) as [rest1 H4]. cbn [snd]. subst out o1. cbn [app]. eauto.
+  - pose proof (solicited_repeat any_answers cfg s from bytes (dg bytes) answers ctl fn obj last HR Hc Htq Ecl) as [(l & L1 & L2 & L3 & L4) Hall].
+    pose proof (classify_unicast_cases s bytes ctl fn obj) as Hcl. rewrite Ecl in Hcl. destruct Hcl as (C0 & C1 & _).
+    destruct (K1 l L1) as (ctl' & fn' & obj' & R1 & R2 & R3 & R4).
+    rewrite L3, (to_treq_request _ _ _ _ _ _ Htq) in R1. inversion R1; subst ctl' fn' obj'.
+    eapply Forall_impl; [|exact Hall]. intros [dest b| | | | | | |] Ho; try exact I.
+    cbn. intros Hb. destruct (Ho Hb) as [Hd (r & buf & Hr & Hbb)]. split; [exact Hd|].
+    subst b. rewrite response_bytes_nth0. assert (Hlr : lr_response l = Some r) by congruence.
+    destruct (R4 r Hlr) as [R5 _]. apply R5. apply N.eqb_neq. exact C1.
+Qed.
+
+(* 4, all classifications: a well-formed unicast CONFIRM / *_NR request from idle is never answered *)
+Theorem no_reply_functions_full : forall cfg dg s from bytes answers ctl fn hdrs rh,
+  ReachD cfg dg s -> s_control s = CIdle ->
+  to_treq cfg from (dg bytes) = TqRequest ctl fn (ObjOk hdrs rh) ->
+  In fn [0; 6; 8; 10; 12] ->
+  Forall not_sol (snd (ostep cfg s (ERx from None bytes (dg bytes)) answers)).
+Proof.
+  intros cfg dg s from bytes answers ctl fn hdrs rh HRD Hc Htq Hin.
+  pose proof (ReachD_Reach _ _ _ HRD) as HR. pose proof (ReachD_K _ _ _ HRD) as (K1 & _).
+  apply (no_reply_functions any_answers) with (ctl := ctl) (fn := fn) (hdrs := hdrs) (rh := rh); try assumption.
+  intros r Ecl.
+  pose proof (classify_unicast_cases s bytes ctl fn (ObjOk hdrs rh)) as Hcl. rewrite Ecl in Hcl.
+  destruct Hcl as (C0 & C1 & _ & (l & L1 & L2 & L3 & L4)).
+  destruct (K1 l L1) as (ctl' & fn' & obj' & R1 & R2 & R3 & R4).
+  rewrite L3, (to_treq_request _ _ _ _ _ _ Htq) in R1. inversion R1; subst ctl' fn' obj'.
+  destruct (R4 r L4) as [_ R5]. cbn [In] in Hin. destruct Hin as [<-|Hin]; [discriminate|].
+  exact (R5 hdrs rh eq_refl Hin).
+Qed.
+
+(* definitions spelled out, for the property files *)
+Lemma hdr_rejected_spec : forall cfg fn hdrs,
+  hdr_rejected cfg fn hdrs <->
+  (fn_executed fn = false \/
+   (fn = 2 /\ existsb (write_rejects cfg) hdrs = true) \/
+   (In fn [3; 4; 5] /\ existsb (fun h => negb (is_ctl_hdr h)) hdrs = true) \/
+   ((fn = 7 \/ fn = 9) /\ existsb (freeze_rejects cfg) hdrs = true) \/
+   (fn = 11 /\ existsb (freeze_at_time_rejects cfg) hdrs = true) \/
+   ((fn = 20 \/ fn = 21) /\ (o_unsol cfg = false \/ existsb (fun h => negb (unsol_class_hdr h)) hdrs = true)) \/
+   (In fn [13; 14; 23; 24] /\ hdrs <> [])).
+Proof. intros. reflexivity. Qed.
+
+Lemma group_bytes_spec : forall g v prefix items,
+  group_bytes g v prefix items =
+  [g; v; qualifier_of prefix] ++ count_bytes prefix (N.of_nat (length items)) ++
+  concat (map (fun it => index_bytes prefix (fst it) ++ snd it) items).
+Proof. intros. reflexivity. Qed.
+
+Lemma ReachD_spec : forall cfg dg s,
+  ReachD cfg dg s <->
+  ((exists sel op iin a0, s = fst (ostart cfg sel op iin a0)) \/
+   (exists s0 ev ans, ReachD cfg dg s0 /\
+      match ev with ERx _ _ bytes d => d = dg bytes | _ => True end /\ s = fst (ostep cfg s0 ev ans))).
+Proof.
+  intros cfg dg s. split.
+  - intros H. destruct H as [sel op iin a0|s0 ev ans H1 H2]; [left; eauto|right]. exists s0, ev, ans. auto.
+  - intros [(sel & op & iin & a0 & ->)|(s0 & ev & ans & H1 & H2 & ->)]; [apply ReachD_start|apply ReachD_step; assumption].
+Qed.
+
+Lemma Reach_spec : forall AP cfg s,
+  Reach AP cfg s <->
+  ((exists sel op iin a0, AP a0 /\ s = fst (ostart cfg sel op iin a0)) \/
+   (exists s0 ev ans, Reach AP cfg s0 /\ AP ans /\ s = fst (ostep cfg s0 ev ans))).
+Proof.
+  intros AP cfg s. split.
+  - intros H. destruct H as [sel op iin a0 Ha|s0 ev ans H1 H2]; [left; eauto 6|right]. exists s0, ev, ans. auto.
+  - intros [(sel & op & iin & a0 & Ha & ->)|(s0 & ev & ans & H1 & H2 & ->)]; [apply Reach_start|apply Reach_step]; assumption.
+Qed.
